@@ -158,8 +158,13 @@ def run_random(spec, rec):
             srng = core.rng_for(seed, PROP, 'sched', idx, sidx)
             strat = (C.RandomWalk(srng) if sidx % 2 == 0
                      else C.PCT(srng, 2 + sidx % 3, est))
-            res = H.run_controlled(case, strat)
-            est = max(10, res.steps)
+            fine = None
+            if sidx == nsched - 1:
+                fine = (core.rng_for(seed, PROP, 'fine', idx), 0.08)
+                rec.count('fine_grained_runs')
+            res = H.run_controlled(case, strat, fine=fine)
+            if fine is None:
+                est = max(10, res.steps)
             rec.count('evaluations')
             if res.outcome == 'lost':
                 rec.count('engine_lost_control')
